@@ -350,7 +350,114 @@ func (h *harness) opUnbind(which, s string) (string, cpe.WFN, bool) {
 	} else {
 		h.r.Count(which + ":" + out)
 	}
+	if out != "panic" {
+		h.checkUnbindEntry(which, s, out, w, ok)
+	}
 	return out, w, ok
+}
+
+// checkUnbindEntry: direct checks on one unbinding call.
+func (h *harness) checkUnbindEntry(which, s, out string, w cpe.WFN, ok bool) {
+	// the re-export package and the other entry points are the named function
+	var same string
+	switch which {
+	case "punbindfs":
+		same = "unbindfs"
+	case "punbinduri":
+		same = "unbinduri"
+	case "punbind", "mustunbind":
+		same = "unbind"
+	}
+	if same != "" {
+		if o2, _, _ := implUnbind(same, s); o2 != out {
+			h.r.Fail("", fmt.Sprintf("%s and %s disagree on %q: %s vs %s (op: %s %s)", which, same, s, out, o2, which, enc(s)))
+		}
+	}
+	// prefix dispatch
+	if which == "unbindfs" && ok && !strings.HasPrefix(s, "cpe:2.3:") {
+		h.r.Fail("", fmt.Sprintf("UnbindFS accepts %q, which does not begin with cpe:2.3: (op: unbindfs %s)", s, enc(s)))
+	}
+	if ok && s != "" { // (empty text leaves the receiver of UnmarshalText / Scan alone)
+		if err := w.Valid(); err != nil {
+			h.r.Fail("", fmt.Sprintf("%s(%q) returned the invalid name %#v: %v", which, s, w, err))
+		}
+	}
+	if (which == "unbinduri" || (which == "unbind" && strings.HasPrefix(s, "cpe:/"))) && isASCII(s) {
+		h.checkURIAssembly(which, s, w, ok)
+	}
+}
+
+// uriValueAccepted: is c readable as one (non-edition) component — decided by
+// the implementation itself on the two-component URI `cpe:/a:<c>`, so that
+// the assembly of longer URIs is checked independently of the value decoder.
+func uriValueAccepted(c string) (cpe.Value, bool) {
+	if strings.Contains(c, ":") {
+		return cpe.Value{}, false
+	}
+	w, err := cpe.UnbindURI("cpe:/a:" + c)
+	if err != nil {
+		return cpe.Value{}, false
+	}
+	return w.Attr[1], true
+}
+
+// checkURIAssembly: the structure of UnbindURI (theorem unbindURI_accepts_iff):
+// prefix, at most seven colon-separated components, component i is attribute
+// i, the sixth unpacked when it begins with a tilde, components left out are
+// ANY, the extended attributes unset unless unpacked.
+func (h *harness) checkURIAssembly(which, s string, got cpe.WFN, ok bool) {
+	var want cpe.WFN
+	accept := true
+	why := ""
+	switch {
+	case !strings.HasPrefix(s, "cpe:/"):
+		accept, why = false, "no cpe:/ prefix"
+	default:
+		comps := strings.Split(s[len("cpe:/"):], ":")
+		if len(comps) > 7 {
+			accept, why = false, "more than seven components"
+			break
+		}
+		for i := 0; i < 7; i++ {
+			want.Attr[i].Kind = cpe.ValueAny
+		}
+		for i, c := range comps {
+			if i == 5 && strings.HasPrefix(c, "~") {
+				for k, p := range strings.SplitN(c, "~", 6)[1:] {
+					v, vok := uriValueAccepted(p)
+					if !vok {
+						accept, why = false, fmt.Sprintf("packed part %q", p)
+					}
+					want.Attr[[]int{5, 7, 8, 9, 10}[k]] = v
+				}
+				continue
+			}
+			v, vok := uriValueAccepted(c)
+			if !vok {
+				accept, why = false, fmt.Sprintf("component %q", c)
+			}
+			want.Attr[i] = v
+		}
+		if p := want.Attr[0]; accept && p.Kind == cpe.ValueSet && p.V != "a" && p.V != "o" && p.V != "h" {
+			accept, why = false, "part "+p.V
+		}
+	}
+	h.r.Case("uri-assembly "+s, accept)
+	switch {
+	case accept && !ok:
+		h.r.Count("uri-assembly:wrongly-rejected")
+		h.r.Fail("", fmt.Sprintf("%s rejects %q although every component is readable on its own (op: %s %s)", which, s, which, enc(s)))
+	case !accept && ok:
+		h.r.Count("uri-assembly:wrongly-accepted")
+		h.r.Fail("", fmt.Sprintf("%s accepts %q (%s) -> %#v (op: %s %s)", which, s, why, got, which, enc(s)))
+	case accept && got != want:
+		h.r.Count("uri-assembly:differs")
+		h.r.Fail("", fmt.Sprintf("%s(%q) = %#v, component by component it is %#v (op: %s %s)", which, s, got, want, which, enc(s)))
+	case accept:
+		h.r.Count("uri-assembly:accepted")
+	default:
+		h.r.Count("uri-assembly:rejected")
+	}
 }
 
 // opNewValue: cpe.NewValue / the re-export.
@@ -417,6 +524,10 @@ func (h *harness) opName(op string, w cpe.WFN) string {
 		out = hx.Guard(func() string { return enc(w.BindFS()) })
 	case "string":
 		out = hx.Guard(func() string { return enc(w.String()) })
+		// String is the bound form, and empty exactly for a name without any attribute
+		if want := enc(w.BindFS()); out != "panic" && ((w.Valid() == cpe.ErrUnset && out != "-") || (w.Valid() != cpe.ErrUnset && out != want)) {
+			h.r.Fail("", fmt.Sprintf("String() of %#v is %s, BindFS %s, Valid: %v", w, out, want, w.Valid()))
+		}
 	case "marshal":
 		out = hx.Guard(func() string {
 			b, err := w.MarshalText()
@@ -478,6 +589,19 @@ func (h *harness) opCmp2(a, b cpe.WFN, primary bool) (string, cpe.Relations) {
 	h.r.Op("cmp "+encWFN(a)+" "+encWFN(b), out, setset && primary)
 	if out == "panic" {
 		h.r.Fail("", fmt.Sprintf("Compare panics on %q %q", a.BindFS(), b.BindFS()))
+		return out, rs
+	}
+	// the four verdicts are functions of the eleven attribute relations
+	sup, sub, eq, dis := true, true, true, false
+	for _, r := range rs {
+		sup = sup && (r == cpe.Equal || r == cpe.Superset)
+		sub = sub && (r == cpe.Equal || r == cpe.Subset)
+		eq = eq && r == cpe.Equal
+		dis = dis || r == cpe.Disjoint
+	}
+	if sup != rs.IsSuperset() || sub != rs.IsSubset() || eq != rs.IsEqual() || dis != rs.IsDisjoint() {
+		h.r.Fail("", fmt.Sprintf("verdicts %s do not follow from the attribute relations (superset %v subset %v equal %v disjoint %v); source=%q target=%q (op: cmp %s %s)",
+			out, sup, sub, eq, dis, a.BindFS(), b.BindFS(), encWFN(a), encWFN(b)))
 	}
 	return out, rs
 }
@@ -488,6 +612,20 @@ func (h *harness) opVuln(name string, record cpe.WFN) string {
 	h.r.Count("vuln:" + out)
 	if out == "panic" {
 		h.r.Fail("", fmt.Sprintf("rhel Matcher.Vulnerable panics on advisory CPE %q", name))
+		return out
+	}
+	// the CPE condition is: the advisory's name unbinds, and it is a superset of
+	// the repository's name or its bound string without the trailing ":*" is a
+	// prefix of the repository's bound string
+	want := false
+	sup, prefix := false, false
+	if src, err := cpe.Unbind(name); err == nil {
+		sup = cpe.Compare(src, record).IsSuperset()
+		prefix = strings.HasPrefix(record.String(), strings.TrimRight(src.String(), ":*"))
+		want = sup || prefix
+	}
+	if fmt.Sprint(want) != out {
+		h.r.Fail("", fmt.Sprintf("rhel Vulnerable=%s but superset=%v prefix=%v for advisory %q record %q (op: vuln %s %s)", out, sup, prefix, name, record.BindFS(), enc(name), encWFN(record)))
 	}
 	return out
 }
@@ -539,6 +677,19 @@ func (h *harness) checkRoundTrip(w cpe.WFN) {
 		}
 		h.r.Count("roundtrip:differs")
 		h.r.Fail(class, fmt.Sprintf("valid name %#v binds to %q which unbinds (%s) to ok=%v %#v", w, fs, which, ok, got))
+	}
+	// a name within the naming specification binds to a formatted string of its ABNF
+	strictName := true
+	for _, a := range w.Attr {
+		if a.Kind == cpe.ValueSet && strict1(a.V) != nil {
+			strictName = false
+		}
+	}
+	if strictName {
+		h.r.Count("roundtrip:strict-name")
+		if strict, reasons := classifyFS(fs); !strict && !(len(reasons) == 1 && reasons[0] == lenLanguage) {
+			h.r.Fail("", fmt.Sprintf("name %#v binds to %q, which is not a formatted string of the specification: %v", w, fs, reasons))
+		}
 	}
 	// MarshalText / String agree with BindFS on valid names
 	if b, err := w.MarshalText(); err != nil || string(b) != fs || w.String() != fs {
